@@ -203,17 +203,33 @@ func c11Case(ctx *genCtx, ts *tape.Set, dir string) *genResult {
 		if mt.Intn(3) == 0 {
 			cand = base + "_1"
 		}
-		if w.NFiles < 2 {
-			w.NFiles = 2
-			w.Unfmt = append(w.Unfmt, false)
-			w.LineDir = append(w.LineDir, "")
+		have := false
+		for _, u := range w.UserFuncs {
+			if u.Pkg == "" && u.Name == cand {
+				have = true // the world already holds a hand-written function of that name
+			}
 		}
-		w.UserFuncs = append(w.UserFuncs, world.UserFunc{Name: cand, File: w.NFiles - 1,
-			Text: fmt.Sprintf("func %s(a, b complex64) complex64 { return a - b }\n\nvar _ = %s(1, 2)\n", cand, cand)})
+		if !have {
+			if w.NFiles < 2 {
+				w.NFiles = 2
+				w.Unfmt = append(w.Unfmt, false)
+				w.LineDir = append(w.LineDir, "")
+			}
+			w.UserFuncs = append(w.UserFuncs, world.UserFunc{Name: cand, File: w.NFiles - 1,
+				Text: fmt.Sprintf("func %s(a, b complex64) complex64 { return a - b }\n\nvar _ = %s(1, 2)\n", cand, cand)})
+		}
 		res.probe("world.reserved_fresh_name_candidate")
 	}
 	files := w.Render()
 	writeWorld(base, files)
+	if !prior {
+		// (with a prior derived.gen.go in place the check would see its functions; the world of a prior case was rendered from the same generator)
+		if probs := userSourceProblems(base, w, "./p"); len(probs) > 0 {
+			res.probe("world.invalid_discarded")
+			res.Sample = map[string]any{"files": userSources(files), "invalid_world": probs}
+			return res
+		}
+	}
 	res.Sample = map[string]any{"files": userSources(files), "profile": profile, "conflicts": conflicts, "duplicates": dups, "injected": did, "earlier_version_generated_first": prior, "prefix_flags": pflags}
 	if prior {
 		res.Sample["earlier_files"] = userSources(earlier)
